@@ -10,7 +10,7 @@ import (
 type Cmd struct {
 	K      string `json:"k"`            // "p" probe, "r" pip:run, "t" pip:try
 	ID     int    `json:"id,omitempty"` // probe id
-	F      string `json:"f,omitempty"`  // probe failure: "" none, "ret" returns an error, "app" appends one to its scope, "eof" the line ends inside a quote (last line of a heredoc body only): it cannot be split into arguments, the command never begins and the loop fails
+	F      string `json:"f,omitempty"`  // probe failure: "" none, "ret" returns an error, "app" appends one to its scope, "stop" stops its scope and then returns an error (bodies of the exhaustive family only), "eof" the line ends inside a quote (last line of a heredoc body only): it cannot be split into arguments, the command never begins and the loop fails
 	H      int    `json:"h,omitempty"`  // hold kind: 0 none, 1 Gosched×N, 2 sleep N µs
 	N      int    `json:"n,omitempty"`
 	Name   string `json:"name,omitempty"`
@@ -40,6 +40,18 @@ func (b *builder) probe(f string, h, n int) *Cmd {
 
 func (b *builder) name(prefix string) string {
 	b.nextName++
+	// nested tasks and tries may be called anything – also what pip:try calls its own handler and
+	// body tasks (the first name of a program, the top-level try, keeps its ordinary name)
+	switch b.nextName {
+	case 2:
+		return "finally"
+	case 4:
+		return "fail"
+	case 5:
+		return "success"
+	case 7:
+		return "body"
+	}
 	return fmt.Sprintf("%s%d", prefix, b.nextName)
 }
 
@@ -449,13 +461,13 @@ func (b *builder) genTry(rng *rand.Rand, depth int, fails *bool) *Cmd {
 // ---- bounded-exhaustive family --------------------------------------------------------------------
 
 const (
-	exhBodies   = 10
+	exhBodies   = 11
 	exhHandlers = 4
 	exhDrivers  = 3
 	exhTotal    = exhDrivers * exhBodies * exhHandlers * exhHandlers * exhHandlers
 )
 
-var exhBodyNames = []string{"ok", "fail-return", "fail-append-then-hold", "ok;fail-return", "task(ok);ok", "task(fail);ok", "try(body fails, handled);ok", "try(finally fails)", "task(sandbox Run returns an error);ok", "ok;line ending inside a quote"}
+var exhBodyNames = []string{"ok", "fail-return", "fail-append-then-hold", "ok;fail-return", "task(ok);ok", "task(fail);ok", "try(body fails, handled);ok", "try(finally fails)", "task(sandbox Run returns an error);ok", "ok;line ending inside a quote", "stops its scope, then fails"}
 var exhHandlerNames = []string{"-", "ok", "fail-return", "fail-append"}
 
 // exhProgram decodes idx into (driver, body kind, success, fail, finally kinds). The structure is
@@ -494,6 +506,9 @@ func exhProgram(idx int, rng *rand.Rand) (b *builder, top *Cmd, driver string, l
 	case 9:
 		h, n := hold()
 		body = []*Cmd{b.probe("", h, n), b.probe("eof", 0, 0)}
+	case 10:
+		h, n := hold()
+		body = []*Cmd{b.probe("stop", h, n)}
 	case 7:
 		inner := b.try([]*Cmd{b.probe("", 0, 0)}, nil, nil, []*Cmd{b.probe(failKind(rng), 0, 0)})
 		body = []*Cmd{inner, b.probe("", 0, 0)}
